@@ -1,4 +1,5 @@
 import Driver.Proto
+import Driver.C04B
 import Driver.C05
 import Driver.C06
 import Driver.C08
@@ -13,7 +14,7 @@ import Driver.Rel
 open Driver Selene
 
 def allHandlers : List (String × Handler) :=
-  Driver.C05.handlers ++ Driver.C06.handlers ++ Driver.C08.handlers ++ Driver.C15.handlers ++ Driver.C16.handlers ++ Driver.C17.handlers ++ Driver.C18.handlers ++ Driver.C19.handlers ++ Driver.C20.handlers ++ Driver.Scope.handlers ++ Driver.Rel.handlers
+  Driver.C04B.handlers ++ Driver.C05.handlers ++ Driver.C06.handlers ++ Driver.C08.handlers ++ Driver.C15.handlers ++ Driver.C16.handlers ++ Driver.C17.handlers ++ Driver.C18.handlers ++ Driver.C19.handlers ++ Driver.C20.handlers ++ Driver.Scope.handlers ++ Driver.Rel.handlers
 
 def handleLine (line : String) : String :=
   match line.splitOn "\t" with
